@@ -42,7 +42,7 @@ def grid(tier):
                             'shape': shape, 'server': server, 'client': client, 'req': {'meta': [], 'msgs': [[1]] if shape == 'sstream' else [[1], [2]]},
                             'script': {'init_meta': [], 'msgs': [[2]] if single else [[2], [3]], 'end': {'ok': True}, 'fail_before': False, 'no_compress': False, 'latency_ms': L}})
     # a malformed grpc-timeout is ignored: the configured timeouts still apply (header bytes injected below the client API)
-    for raw in (b'5x', b'123456789n', b'soonS', b'', b'1 S', b'-1S', b'1s'):
+    for raw in (b'5x', b'123456789n', b'soonS', b'', b'1 S', b'-1S', b'1s', '5\u00b5'.encode(), '\u20ac'.encode()):
         for tsrv in [None, 1000]:
             for te in [None, 2000]:
                 for L in ([0, 500, 1500, 2500] if tier != 'thorough' else lat):
